@@ -111,7 +111,7 @@ SHARED_WORDS = ("_classes", "_DISPATCH_CACHE", "TRANSFORMS", "globals()", "sys.m
 
 def mentions_shared_state(desc: str) -> bool:
     fname, func, line = desc.rsplit(":", 2)
-    for f in sched.SEL_FILES:
+    for f in sched.SEL_FILES + (sched.SQLGLOT + "/optimizer/optimizer.py",):
         if f.endswith("/" + fname) or os.path.basename(f) == fname:
             src = linecache.getline(f, int(line))
             if any(w in src for w in SHARED_WORDS):
